@@ -153,7 +153,7 @@ fn same(a: &MwForm, b: &MwForm) -> bool {
     out_same && o
 }
 
-pub const TEMPLATES: [(&str, &str); 16] = [
+pub const TEMPLATES: [(&str, &str); 17] = [
     ("big-procedure-many-jumps", "(define (big x) (cond ((= x 0) (if (> x 1) 1 (if (> x 2) 2 (if (> x 3) 3 (if (> x 4) 4 (if (> x 5) 5 (if (> x 6) 6 (if (> x 7) 7 (if (> x 8) 8 (if (> x 9) 9 (if (> x 10) 10 (if (> x 11) 11 (if (> x 12) 12 (if (> x 13) 13 (if (> x 14) 14 (if (> x 15) 15 (if (> x 16) 16 (if (> x 17) 17 (if (> x 18) 18 (if (> x 19) 19 (if (> x 20) 20 (if (> x 21) 21 (if (> x 22) 22 (if (> x 23) 23 (if (> x 24) 24 (if (> x 25) 25 (if (> x 26) 26 (if (> x 27) 27 (if (> x 28) 28 (if (> x 29) 29 (if (> x 30) 30 (if (> x 31) 31 (if (> x 32) 32 (if (> x 33) 33 (if (> x 34) 34 (if (> x 35) 35 (if (> x 36) 36 (if (> x 37) 37 (if (> x 38) 38 (if (> x 39) 39 (if (> x 40) 40 (if (> x 41) 41 (if (> x 42) 42 (if (> x 43) 43 (if (> x 44) 44 (if (> x 45) 45 (if (> x 46) 46 (if (> x 47) 47 (if (> x 48) 48 (if (> x 49) 49 50)))))))))))))))))))))))))))))))))))))))))))))))))) ((= x 1) (list x x)) (else (vector x)))) (define keep (let loop ((i 0) (acc '())) (if (< i {S}) (loop (+ i 1) (cons (big (remainder i 3)) acc)) acc))) (length keep) (big 0) (let loop ((i 0)) (if (< i {N}) (begin (list i (big 2)) (loop (+ i 1))))) (car keep)"),
     ("list-builder", "(define (build n) (if (= n 0) '() (cons n (build (- n 1))))) (define l (build {N})) (length l) (apply + l) (define l2 (map (lambda (x) (* x x)) l)) (list (car l2) (length (append l l2)))"),
     ("vector-builder", "(define v (make-vector {S} 'x)) (vector-set! v 0 (list 1 2 3)) (define w (vector (list 'a 'b) (vector 1 (list 2)) \"str\")) (vector-fill! v (cons 1 2)) (list (vector-ref v 1) w (vector->list (vector 1 2 3)))"),
@@ -162,6 +162,7 @@ pub const TEMPLATES: [(&str, &str); 16] = [
     ("closure-factory", "(define (mk n) (let ((c 0)) (lambda () (set! c (+ c n)) c))) (define cs (map mk '(1 2 3 4 5 6 7 8))) (map (lambda (c) (c)) cs) (map (lambda (c) (c)) (reverse cs)) (define (compose f g) (lambda (x) (f (g x)))) ((compose (lambda (x) (* x 2)) (lambda (x) (+ x {S}))) 5)"),
     ("continuation-store", "(define ks '()) (define (note) (call/cc (lambda (k) (set! ks (cons k ks)) (length ks)))) (list (note) (note) (note)) (define r 0) (define k1 #f) (set! r (+ 1 (call/cc (lambda (k) (set! k1 k) 1)))) (if (< r {S}) (k1 r) 'done) r (length ks)"),
     ("eval-loop", "(define acc '()) (let loop ((i 0)) (if (< i {S}) (begin (set! acc (cons (eval (list '+ i 1)) acc)) (loop (+ i 1))))) acc (eval '(let ((z 3)) (* z z))) (eval '(define ev1 (lambda (q) (list q q)))) (ev1 'w)"),
+    ("quasiquote-dotted-tail-constants", "(define (qd x) `((,x 2) ,x . #(7 8 9))) (define (qs x) `(,x . \"second\")) (define (qy x) `(a ,x . only-here-symbol)) (define (qn x) `(b (,x . \"inner\") . #(1))) (define junk (let loop ((i 0) (acc '())) (if (< i {S}) (loop (+ i 1) (cons (vector i) acc)) acc))) (length junk) (qd 1) (qs 2) (qy 3) (qn 4) (set! junk #f) (qd 5) (qs 6) (qy 7) (qn 8) (eq? (cdr (cdr (qy 1))) 'only-here-symbol)"),
     ("escaped-symbol-churn", "(define (sym i) (string->symbol (string-append \"s p(\" (number->string i)))) (define (tmp i) (string->symbol (string-append \"gone \" (number->string (remainder i 7))))) (define syms (let loop ((i 0) (acc '())) (if (< i {S}) (begin (tmp i) (loop (+ i 1) (cons (sym i) acc))) acc))) (length syms) (eq? (sym 3) (sym 3)) (eq? (car syms) (sym (- {S} 1))) (symbol? (tmp 3)) (eq? (tmp 4) (tmp 4)) (symbol->string (tmp 5)) (symbol->string (car syms))"),
     ("symbol-churn", "(define (sym i) (string->symbol (string-append \"s\" (number->string i)))) (define syms (let loop ((i 0) (acc '())) (if (< i {S}) (loop (+ i 1) (cons (sym i) acc)) acc))) (length syms) (eq? (sym 3) (sym 3)) (eq? (car syms) (sym (- {S} 1))) (memq (sym 0) syms) (symbol->string (car syms))"),
     ("define-aggregates", "(define a1 (list 1 (list 2 3) #(4 5))) (define a2 (vector (list 1) \"s\" #\\c 'sym)) (define a3 (cons (cons 1 2) (cons 3 4))) (define a4 (lambda args args)) (define a5 (let ((h (list 9 9))) (lambda () h))) (define a6 \"string value\") (list a1 a2 a3 (a4 1 2) (a5) a6) (set-car! a1 (list 'new)) (vector-set! a2 0 (vector 'deep (list 'er))) (list a1 a2)"),
